@@ -89,6 +89,8 @@ class World:
         self.lemmas = []
         self.lemma_texts = {}   # name -> (params, [hypothesis texts], conclusion text)
         self.module_names = set()   # global names of the real module treated as opaque objects/modules
+        self.builtin_classes = {}   # python builtin type name -> sidecar class (isinstance on references)
+        self.const_overrides = {}   # (class, attr) -> callable(interp) -> value, for non-literal class constants
         self.kinds = {}        # name -> Kind usable as a quantifier domain in specs
 
     # -- declaration helpers
